@@ -15,6 +15,8 @@ pub struct Cache<M: Modulation> {
     #[debug("{}", !self.cache.borrow().is_empty())]
     /// Cached modulation data.
     cache: Rc<RefCell<Vec<u8>>>,
+    #[debug(skip)]
+    err: Rc<RefCell<Option<ModulationError>>>,
 }
 
 impl<M: Modulation> Clone for Cache<M> {
@@ -23,6 +25,7 @@ impl<M: Modulation> Clone for Cache<M> {
             m: self.m.clone(),
             sampling_config: self.sampling_config,
             cache: self.cache.clone(),
+            err: self.err.clone(),
         }
     }
 }
@@ -35,6 +38,7 @@ impl<M: Modulation> Cache<M> {
             sampling_config: m.sampling_config(),
             m: Rc::new(RefCell::new(Some(m))),
             cache: Rc::default(),
+            err: Rc::default(),
         }
     }
 
@@ -42,9 +46,16 @@ impl<M: Modulation> Cache<M> {
     pub fn init(&self) -> Result<(), ModulationError> {
         if let Some(m) = self.m.take() {
             tracing::debug!("Initializing cache");
-            *self.cache.borrow_mut() = m.calc()?;
+            match m.calc() {
+                Ok(buffer) => *self.cache.borrow_mut() = buffer,
+                Err(e) => *self.err.borrow_mut() = Some(e),
+            }
         }
-        Ok(())
+        // The target is consumed by the first use: a failure is what every later use reports, too.
+        match self.err.borrow().as_ref() {
+            Some(e) => Err(e.clone()),
+            None => Ok(()),
+        }
     }
 
     /// Get the number of references to the cache.
